@@ -20,7 +20,7 @@ type CaseC07 struct {
 	Steps     []Step                 `json:"steps"`
 	ArraySize int                    `json:"array_size"`
 	Unrelated uint16                 `json:"unrelated_opts,omitempty"` // options that must not matter, see applyUnrelatedOptions
-	Alias *AliasSpec `json:"alias,omitempty"` // one container object gets a second parent in the subject Map
+	Alias     *AliasSpec             `json:"alias,omitempty"`          // one container object gets a second parent in the subject Map
 }
 
 func init() { register("C07", checkC07) }
@@ -37,6 +37,9 @@ func genC07(t *rapid.T) CaseC07 {
 	case r == 2:
 		c.Src = "boost-list-in-list"
 		c.Map, c.Steps, _ = boostLIL(t)
+	case r == 3:
+		c.Src = "boost-empty-key"
+		c.Map, c.Steps, _ = boostEmptyKey(t)
 	default:
 		indexed := rapid.Bool().Draw(t, "indexed")
 		lil := !indexed && rapid.IntRange(0, 3).Draw(t, "lil") == 0
